@@ -1362,3 +1362,26 @@ async fn d34_damaged_first_type_byte_fails_open_in_tolerant_mode() {
 	let r = Tree::new(Arc::clone(&opts));
 	assert!(r.is_ok(), "D34: open fails in TolerateCorruptedWithRepair mode on a single damaged byte: {:?}", r.err());
 }
+
+// D35: a table written without a filter (filter_policy = None) cannot be opened by a store configured WITH a filter policy:
+// Table::read_filter_block seeks "filter.<name>" in the meta index, lands on the next entry ("meta") and asserts that the
+// key is the filter's.  The reopen panics.
+#[tokio::test(flavor = "multi_thread")]
+async fn d35_table_without_filter_panics_on_reopen_with_filter_policy() {
+	let d = td();
+	{
+		let mut o = Options { path: d.path().to_path_buf(), ..Default::default() };
+		o.filter_policy = None;
+		let t = Tree::new(Arc::new(o)).unwrap();
+		put(&t, b"k", b"v").await;
+		t.flush().unwrap();
+		t.close().await.unwrap();
+	}
+	let p = d.path().to_path_buf();
+	let r = std::panic::catch_unwind(move || {
+		let o = Options { path: p, ..Default::default() }; // default: bloom filter policy
+		Tree::new(Arc::new(o)).map(|_| ())
+	});
+	assert!(r.is_ok(), "D35: reopening with the default filter policy PANICS on a table that was written without a filter");
+	assert!(r.unwrap().is_ok(), "D35: reopening fails");
+}
